@@ -48,6 +48,18 @@ class Effects:
             return []
         R = self.roots
         if isinstance(e, ast.Attribute):
+            getters = self._getters(fi, e)
+            if getters:
+                # a property read: what it hands out is what its getter returns (a copy is fresh, `return self._x` an alias)
+                out = []
+                for g in getters:
+                    for ap in self.alias_paths(g):
+                        if ap and ap[0] == "<shallow>":
+                            if path and path[0] != "[]" and not path[0].startswith("<"):
+                                out += R(fi, e.value, at, ap[1:] + path, depth - 1)
+                        else:
+                            out += R(fi, e.value, at, ap + path, depth - 1)
+                return out
             return R(fi, e.value, at, (e.attr,) + path, depth)
         if isinstance(e, ast.Subscript):
             if isinstance(e.slice, ast.Slice):
@@ -131,6 +143,18 @@ class Effects:
                     return R(fi, f.value, at, ("[]",) + path, depth - 1)
             return []
         return []
+
+    def _getters(self, fi: FuncInfo, e: ast.Attribute) -> List[FuncInfo]:
+        cache = self.__dict__.setdefault("_prop_reads", {})
+        if fi.qualname not in cache:
+            m = {}
+            try:
+                for node, getter in self.eng.property_reads(fi):
+                    m.setdefault(id(node), []).append(getter)
+            except AnalysisError:
+                pass
+            cache[fi.qualname] = m
+        return cache[fi.qualname].get(id(e), [])
 
     def _roots_name(self, fi: FuncInfo, name: str, at: int, path, depth) -> List[Effect]:
         f = fi
